@@ -23,7 +23,8 @@ RULE = ("EXHAUSTIVE: every string of length <= 4 over {quote, slash, space, a} a
         "Non-trivial: a name containing a quote or slash or being empty."
         ' A further writer mode writes the same channels three times, the last time in the opposite order with other '
         'lengths; every file is also opened lazily and each channel read from every start offset.'
-        ' Whole-file chunk streams of the lazily opened file are addressed by the same names.')
+        ' Whole-file chunk streams of the lazily opened file are addressed by the same names.'
+        ' Names differing only in the case of a letter are forced into some cases.')
 ASSUMPTIONS = [
     "TDMS path syntax: /'group'/'channel' with single quotes doubled inside names (vf/model.py make_path)",
     "surrogate code points are excluded (not encodable as UTF-8)",
